@@ -45,6 +45,20 @@ Fixpoint as_ccrit (t : tree) {struct t} : option ccrit :=
   | _ => None
   end.
 
+(* [3, k] / [4, k]: the keyword forms any(data=k) / has(data=k) *)
+Fixpoint as_ncrit (t : tree) {struct t} : option ncrit :=
+  match t with
+  | L [I 0; s] => option_map NS (as_sx s)
+  | L [I 1; s] => option_map NAny (as_sx s)
+  | L [I 2; s] => option_map NHas (as_sx s)
+  | L [I 3; I k] => Some (NAny (SCmp OEq k))
+  | L [I 4; I k] => Some (NHas (SCmp OEq k))
+  | L [I 5; a; b] => match as_ncrit a, as_ncrit b with Some x, Some y => Some (NAnd x y) | _, _ => None end
+  | L [I 6; a; b] => match as_ncrit a, as_ncrit b with Some x, Some y => Some (NOr x y) | _, _ => None end
+  | L [I 7; a] => option_map NNot (as_ncrit a)
+  | _ => None
+  end.
+
 Definition as_target (z : Z) : option target :=
   match z with 0 => Some TgC | 1 => Some TgAlias | 2 => Some TgSub | 3 => Some TgSubOn | _ => None end%Z.
 Definition as_colmode (z : Z) : option colmode :=
@@ -65,6 +79,9 @@ Definition as_oq (t : tree) : option oq :=
     end
   | L [I 4; sc] => option_map QGroup (as_sx sc)
   | L [I 5; a; b] => match as_pcrit a, as_pcrit b with Some x, Some y => Some (QUnion x y) | _, _ => None end
+  | L [I 6; c] => option_map QN (as_ncrit c)
+  (* v: 0 (Sub, aliased(Sub)), 1 two aliases, 2 the id columns of class + alias *)
+  | L [I 7; I v; sc] => option_map (QSibs (Z.eqb v 2)) (as_sx sc)
   | _ => None
   end.
 
@@ -83,10 +100,16 @@ Definition as_crow (t : tree) : option crow :=
   end.
 Definition as_db (t : tree) : option db :=
   match t with
-  | L [tp; tc] =>
-    match as_list_of as_prow tp, as_list_of as_crow tc with
-    | Some p, Some c => Some {| ps := p; cs := c |} | _, _ => None
+  | L [tp; tc; tn] =>
+    match as_list_of as_prow tp, as_list_of as_crow tc, as_list_of as_crow tn with
+    | Some p, Some c, Some n => Some {| ps := p; cs := c; ns := n |} | _, _, _ => None
     end
+  | _ => None
+  end.
+(* [offset; limit] with limit -1 = none *)
+Definition as_slice (t : tree) : option (nat * option nat) :=
+  match t with
+  | L [I o; I l] => if (o <? 0)%Z then None else Some (Z.to_nat o, if (l <? 0)%Z then None else Some (Z.to_nat l))
   | _ => None
   end.
 
@@ -97,15 +120,16 @@ Definition of_item (i : item) : tree :=
   | IVal v => of_optZ v
   end.
 
-(* input  L [db; query; I style (0 = select() + Session.execute, 1 = legacy Query)]
+(* input  L [db; query; I style (0 = select() + Session.execute, 1 = legacy Query); L [offset; limit]]
    output L [rows; count; exists] *)
 Definition run_case (t : tree) : tree :=
   match t with
-  | L [td; tq; ts] =>
-    match as_db td, as_oq tq, as_bool ts with
-    | Some d, Some q, Some legacy =>
-      L [of_list (of_list of_item) (orm_exec d q legacy); of_nat (orm_count d q); of_bool (orm_exists d q)]
-    | _, _, _ => bad_input
+  | L [td; tq; ts; tl] =>
+    match as_db td, as_oq tq, as_bool ts, as_slice tl with
+    | Some d, Some q, Some legacy, Some (off, lim) =>
+      L [of_list (of_list of_item) (orm_exec_sl d q off lim legacy); of_nat (orm_count_sl d q off lim);
+         of_bool (if legacy then orm_exists_legacy d q off lim else orm_exists_sl d q off lim)]
+    | _, _, _, _ => bad_input
     end
   | _ => bad_input
   end.
